@@ -17,7 +17,7 @@ def rets(P, fn):
 def run(chk, tier):
     P = Prog("default")
     chk.configs.add("default")
-    for r in (r_diff_months, r_month_direction, r_copy_ndt, r_zero_based, r_years_since, r_week, r_small, r_week_bounds, r_with_pairs, r_replace_map, r_absint):
+    for r in (r_diff_months, r_month_direction, r_operator_directions, r_copy_ndt, r_zero_based, r_years_since, r_week, r_small, r_week_bounds, r_with_pairs, r_replace_map, r_absint):
         chk.guarded(r, P, tier)
     chk.assume("that clamping, n-th weekday and week bounds are numerically right for every date is not decided beyond the rules listed")
     return {
@@ -375,3 +375,8 @@ def r_replace_map(chk, P, tier):
     for cls, (a, got, w) in sorted(bad.items()):
         fnp = (DL + cls) if cls.startswith("with_") else ND + cls
         chk.bad(cls, "%s%s folds to %s, the calendar gives %s" % (cls, a, got, w), loc=P.loc(fnp) if P.has(fnp) else None)
+
+
+def r_operator_directions(chk, P, tier=None):
+    import rules
+    rules.operator_directions(chk, P, {"month::Months", "naive::Days"}, floor=12)
